@@ -1,5 +1,5 @@
 """Job registry: property id -> list of CBMC queries per tier."""
-from vlib.core import Job
+from vlib.core import Job, FS520
 import re
 
 CODECS = [("base32", "base32_ops", 32, 5, 5, 8, "base32.c"),
@@ -273,6 +273,18 @@ SHRINK_STEP = [(r"dnscache_answer\[DNSCACHE_LEN\]\[4096\]", "dnscache_answer[DNS
                (r"char in\[512\];", "char in[64];"), (r"char pkt\[4096\];", "char pkt[82];"),
                (r"#define QMEMPING_LEN 30", "#define QMEMPING_LEN 3"), (r"#define QMEMDATA_LEN 15", "#define QMEMDATA_LEN 3"),
                (r"#define OUTPACKETQ_LEN 4\b", "#define OUTPACKETQ_LEN 2"), (r"#define DNSCACHE_LEN 4\b", "#define DNSCACHE_LEN 2")]
+def _elem(e, i="i_"):
+    """element expression for the i-th byte of memcpy operand e: a direct array lvalue wherever the operand names an
+    array/char pointer (optionally + offset), a char-cast otherwise"""
+    e = e.strip()
+    m = re.match(r"^([A-Za-z_][\w\[\]\.>-]*?)\s*\+\s*(.+)$", e)
+    if m and not m.group(1).endswith("-"):
+        return "(%s)[(%s) + %s]" % (m.group(1), m.group(2), i)
+    if re.match(r"^[A-Za-z_][\w\[\]\.]*(->\w+)*$", e) and not e.startswith("&"):
+        return "(%s)[%s]" % (e, i)
+    return "((char *) (%s))[%s]" % (e, i)
+
+
 def memcpy_inline(m):
     """source transform for the scratch copy of iodined.c: memcpy statement -> typed copy at the call site (see S_step.c)"""
     d, s, n = m.group(1).strip(), m.group(2).strip(), m.group(3).strip()
@@ -280,10 +292,13 @@ def memcpy_inline(m):
         return "VS_CP_QUERY(%s, %s);" % (d, s)
     if re.search(r"->fromlen2?$", n) and "(struct sockaddr" not in d:
         return "VS_CP_SS(%s, %s, %s);" % (d, s, n)
-    return "VS_CP_BYTES(%s, %s, %s);" % (d, s, n)
+    se = _elem(s)
+    if se.startswith("((char *)"):
+        se = se.replace("((char *)", "((const char *)", 1)
+    return "{ size_t i_, n_ = (size_t) (%s); for (i_ = 0; i_ < n_; i_++) %s = %s; }" % (n, _elem(d), se)
 
 
-MEMCPY_SUBST = [(r"\bmemcpy\(([^;]*?),\s*([^;,]*(?:\([^;]*?\))?[^;,]*?),\s*([^;,]*(?:\([^;]*?\))?[^;,]*?)\);", memcpy_inline)]
+MEMCPY_SUBST = [(r"\bmemcpy\(([^;]*?),\s*([^;,]*(?:\([^;]*?\))?[^;,]*?),\s*([^;,]*(?:\([^;]*?\))?[^;,]*?)\);", memcpy_inline, "iodined.c")]
 STUB_SC_SUBST = [(r"static int send_chunk_or_dataless\(int dns_fd, int userid, struct query \*q\)\n\{",
                   "static int real_send_chunk_or_dataless(int dns_fd, int userid, struct query *q)\n{")]
 STEP_UNITS = ["encoding.c", "base32.c", "base64.c", "base64u.c", "base128.c", "user.c", "fw_query.c", "login.c", "md5.c",
@@ -350,12 +365,12 @@ def step_jobs(tier, groups, prefix, checks=False, nl=None, only=None, timeout=15
         stub = cname[0] in "Pp" or cname.startswith("data")
         if stub:
             defs["STUB_SC"] = None
-        loops = {"start_new_outpacket": STEP_B + 4, "save_to_outpacketq": STEP_B + 4, "save_to_dnscache": STEP_B + 4, "send_raw": STEP_B + 4, "base32_reverse_init": 34, "base64_reverse_init": 66, "base64u_reverse_init": 66, "base128_reverse_init": 130,
+        loops = {"sendto": 130, "start_new_outpacket": STEP_B + 4, "save_to_outpacketq": STEP_B + 4, "save_to_dnscache": STEP_B + 4, "send_raw": STEP_B + 4, "base32_reverse_init": 34, "base64_reverse_init": 66, "base64u_reverse_init": 66, "base128_reverse_init": 130,
                  "handle_null_request": 2050 if cname[0] in "Rr" and cname[1] == "-" else STEP_B + 4, "send_chunk_or_dataless": STEP_B + 4, "start_new_outpacket": STEP_B + 4, "save_to_outpacketq": STEP_B + 4, "save_to_dnscache": STEP_B + 4, "send_raw": STEP_B + 4}
         jobs.append(Job("%s-%s" % (prefix, cname), "S_step.c", defs=defs, units=STEP_UNITS,
                         hunits=SERVER_HUNITS, scale=STEP_B, subst=SHRINK_STEP + MEMCPY_SUBST + (STUB_SC_SUBST if stub else []),
                         unwind=max(n + 12, 34), loops=loops,
-                        checks=checks, timeout=timeout, mem_gb=10, flags=FS,
+                        checks=checks, timeout=timeout, mem_gb=(8 if cname.startswith("data") and "-to" in cname else 6 if (stub or cname[0] in "Rr") else 3), flags=FS,
                         desc="one request (first char %s, slot number %s) to the real handle_null_request() from an arbitrary valid 2-slot "
                              "state; assertion groups %s%s" % (d["CMDCH"], d.get("UIDCELL", "n/a"), "+".join(groups),
                                                               "; send_chunk_or_dataless = contract stub (proved in the emit-* cells)" if stub else ""),
@@ -400,14 +415,228 @@ def dev_emit(tier):
     return emit_jobs(tier, ["INV", "FRAG"], "x")
 
 
+def dev_ans(tier):
+    return step_jobs(tier, ["ANS"], "ans")
+
+
+def dev_frag(tier):
+    return step_jobs(tier, ["FRAG"], "frag")
+
+
 def dev_all(tier):
-    return step_jobs(tier, ["INV", "AUTH", "FRAG", "ANS"], "step-all")
+    return step_jobs(tier, ["INV", "AUTH", "FRAG", "ANS"], "step-all") + emit_jobs(tier, ["INV", "FRAG"], "step-all")
+
+
+def c08_jobs(tier):
+    q = tier == "quick"
+    # encoder space = L - T - 8; shape cells around the dot-insertion edges (multiples of 57/58), the extremes, and L=255
+    spaces = [16, 57, 58, 115, 116, 174, 232, 244] if q else \
+             [16, 17, 56, 57, 58, 59, 113, 114, 115, 116, 117, 170, 171, 172, 173, 174, 175, 227, 228, 229, 230, 231, 232, 233, 243, 244]
+    shape = []
+    for sp in spaces:
+        T = 255 - 8 - sp
+        if 3 <= T <= 128:
+            shape.append((255, T))
+        else:
+            L = max(100, sp + 11)
+            shape.append((L, L - 8 - sp))
+    shape += [(255, 15), (255, 73)] + ([] if q else [(100, 76), (100, 3), (152, 128), (254, 3), (200, 73)])
+    content = [(100, 76), (100, 60)] if q else [(100, 76), (100, 60), (100, 35), (100, 34)]
+    jobs = []
+    codecs = [("base32", "base32_ops", "base32.c", 5, 5, 8), ("base128", "base128_ops", "base128.c", 5, 7, 8),
+              ("base64", "base64_ops", "base64.c", 5, 3, 4), ("base64u", "base64u_ops", "base64u.c", 5, 3, 4),
+              ("base32", "base32_ops", "base32.c", 1, 5, 8)]
+    seen = set()
+    for name, ops, unit, hdr, raw, encb in codecs:
+        for kind, cells in (("shape", shape), ("content", content)):
+            for (L, T) in cells:
+                if T < 3 or T > 128 or T > L - 24 or (name, hdr, kind, L, T) in seen:
+                    continue
+                seen.add((name, hdr, kind, L, T))
+                if hdr == 1 and kind == "shape" and (L, T) not in shape[:3]:
+                    continue
+                sp = L - T - 8
+                npay = sp * raw // encb + 3
+                defs = {"OPS": ops, "SP": sp, "NP": npay, "HDR": hdr, "LCELL": L, "TCELL": T}
+                if kind == "shape":
+                    defs["CONCRETE_PAYLOAD"] = None
+                    defs["CONCRETE_N"] = None
+                jobs.append(Job("hostname-%s-%s-hdr%d-L%d-T%d" % (kind, name, hdr, L, T), "C08_hostname.c", defs=defs,
+                                units=["encoding.c", unit], hunits=["vunit_common.c"],
+                                unwind=L + 4, loops={"%s_encode" % name: npay // raw + 4, "%s_decode" % name: sp // encb + 6,
+                                                     "%s_reverse_init" % name: 130, "inline_dotify": sp + 8, "inline_undotify": sp + 12,
+                                                     "harness.0": 130, "harness.1": npay + 2, "harness.2": 7, "harness.3": 258, "harness.4": 258,
+                                                     "query_datalen": T + 4, "strncpy": T + 4, "memset": 330},
+                                timeout=1500, mem_gb=8, checks=False,
+                                desc="build_hostname() as called by the client (header %d chars, L=%d, domain length %d) then "
+                                     "query_datalen()+unpack_data() as called by the server; %s" %
+                                     (hdr, L, T, "payload longer than the name can carry, fixed byte pattern: fully concrete run (degenerate query)" if kind == "shape"
+                                      else "payload length and every byte symbolic (content lemma)"),
+                                bounds="L=%d, domain length %d (encoder space %d): payload 1..%d bytes" % (L, T, sp, npay),
+                                functions=["build_hostname", "inline_dotify", "unpack_data", "inline_undotify", "query_datalen",
+                                           "%s_encode" % name, "%s_decode" % name]))
+    return jobs
+
+
+def c09_jobs(tier):
+    n = 9 if tier == "quick" else 16
+    jobs = []
+    for kind, encs in ((1, "TSUV"), (2, "TSUVR")):
+        for e in encs:
+            jobs.append(Job("down-%s-%s-N%d" % ("name" if kind == 1 else "txt", e, n), "C09_down.c",
+                            defs={"KIND": kind, "DOWNENC": "'%s'" % e, "NPAY": n, "TEXTSZ": (2 * n + 12) if kind == 2 else 64}, units=SERVER_UNITS,
+                            hunits=SERVER_HUNITS + ["C09_cli.c"], scale=96, subst=SHRINK_ALL + [(r"\[4096\]", "[48]")], checks=False, flags=FS520,
+                            unwind=max(2 * n + 16, 70), loops={"base32_reverse_init": 34, "base64_reverse_init": 66, "base64u_reverse_init": 66,
+                                                  "base128_reverse_init": 130, "memset": 310, "strlen": 2 * n + 20},
+                            timeout=1200, mem_gb=6,
+                            desc=("server write_dns_nameenc() -> client dns_namedec()" if kind == 1 else
+                                  "TXT text composed as write_dns() does -> client dns_namedec()") + ", downstream codec %s" % e,
+                            bounds="payload 2..%d bytes, all byte values" % n,
+                            functions=["write_dns_nameenc", "dns_namedec", "unpack_data", "inline_dotify", "inline_undotify", "base*_encode", "base*_decode"]))
+    return jobs
+
+
+def c13_jobs(tier):
+    ns = 18 if tier == "quick" else 24
+    jobs = [
+        Job("setip-NS%d" % ns, "C13_shell.c", defs={"MODE": 1, "NS": ns}, units=[], unwind=ns + 4,
+            loops={"snprintf": 50, "vsys_system": 90, "o_lit": 40, "vsn_num": 12, "harness": 8, "inet_ntoa": 6, "tun_setip": 34},
+            timeout=1200,
+            desc="real tun_setip() (LINUX) with two arbitrary address strings and an arbitrary netmask bit count; the command "
+                 "handed to system() is parsed by an independent strict oracle",
+            bounds="address texts 0..%d chars over all byte values, netbits any int, interface name <= 5 chars [a-z0-9]" % ns,
+            functions=["tun_setip", "is_dotted_quad"]),
+        Job("setmtu", "C13_shell.c", defs={"MODE": 2, "NS": ns}, units=[], unwind=ns + 4,
+            loops={"snprintf": 50, "vsys_system": 90, "o_lit": 40, "vsn_num": 12, "harness": 8},
+            timeout=600,
+            desc="real tun_setmtu() with an arbitrary 32-bit value; command parsed by the oracle",
+            bounds="mtu: all 2^32 values", functions=["tun_setmtu"]),
+    ]
+    return jobs
+
+
+STEP_ASSUME = [
+    "pre-state: 2 session slots, every field arbitrary subject to the representation invariant inv_user() of S_step.c, which is "
+    "re-asserted on the post-state (inductive) by the C05 cells",
+    "cell parameters made concrete per query: first character of the request, slot number named by the request, destination slot of a "
+    "completed packet, upstream codec (data cells), socket address length (16), ring positions of queue/cache/query memory (0)",
+    "scaling transform on the scratch copy: 64 KiB buffers -> 80 bytes, in[512] -> in[64], pkt[4096] -> pkt[82], answer cache entries "
+    "4096 -> 72 bytes, QMEMPING_LEN 30 -> 3, QMEMDATA_LEN 15 -> 3, OUTPACKETQ_LEN 4 -> 2, DNSCACHE_LEN 4 -> 2",
+    "memcpy statements of iodined.c rewritten to typed element copies at the call site (same bytes copied; CBMC cost only)",
+    "write_dns() observed at the VERIF_WRITE_DNS_HOOK (wire encoding is C09/C10's subject); login_calculate = uninterpreted 16 bytes "
+    "per call (C19 covers the real one); zlib = arbitrary result; time() = two arbitrary non-decreasing instants; rand() arbitrary",
+    "in the ping/data cells send_chunk_or_dataless() is replaced by its contract, which the emit-* cells assert on the real function",
+    "held queries' fromlen2 is normalised while id2 == 0 (it is only read under id2 != 0)",
+]
+
+
+def c03_jobs(tier):
+    return step_jobs(tier, ["AUTH"], "auth")
+
+
+def c04_jobs(tier):
+    return step_jobs(tier, ["AUTH"], "iso", only=r"^(V|L|l|S|O|N|I|R|P|p|data[01])")
+
+
+def c05_jobs(tier):
+    return step_jobs(tier, ["INV"], "safe", checks=True) + emit_jobs(tier, ["INV"], "safe", checks=True)
+
+
+def c14_jobs(tier):
+    return step_jobs(tier, ["ANS"], "ans", only=r"^(V|L|I|Z|S|O|Y|R|N|P|p|data)") + emit_jobs(tier, [], "ans")
+
+
+def c15_jobs(tier):
+    return step_jobs(tier, ["FRAG"], "frag", only=r"^(V-u[01]|N|P|p|data[01])") + emit_jobs(tier, ["FRAG"], "frag")
 
 
 HOOK_COMMITS = ["d1d19fe", "9d69ff3", "db1ee90"]
 PENDING = {}
 
 PROPS = {
+    "C03": {
+        "jobs": c03_jobs, "level": "model_checking",
+        "level_text": "Inductive one-step lemmas on the real request dispatcher: from every valid server state and for every request "
+                      "(one SAT query per first-character x slot cell) the authenticated flags rise only through a correct login "
+                      "response for that slot's current challenge, and a request for a slot that is dead, unauthenticated, bound to "
+                      "another source or options-locked changes no state, writes nothing to the tun device and is answered BADIP/BADLEN only.",
+        "level_note": "bounds and cuts per job (names <= 20..34 chars, 2 slots, scaled buffers); raw-mode frames are not yet covered by a cell; "
+                      "histories of any length follow from the invariant being inductive (C05 cells).",
+        "explanation": "one CBMC query per cell of handle_null_request(); the pre-state is symbolic",
+        "assumptions": STEP_ASSUME,
+    },
+    "C04": {
+        "jobs": c04_jobs, "level": "model_checking",
+        "level_text": "Same one-step lemmas read for isolation: with source checking on, a request naming a slot from another address "
+                      "(IPv4/IPv6 family and address symbolic) changes nothing and gets BADIP; the version handler only takes a slot that "
+                      "is unused or silent for more than 60 s (clock symbolic across the boundary), never a disabled one, and leaves all "
+                      "other slots untouched; a data request can touch another session only by forwarding to the live logged-in owner "
+                      "of the packet's destination address.",
+        "level_note": "tun-device routing (tunnel_tun) is covered only through handle_full_packet's forwarding cells; 2 slots.",
+        "explanation": "one CBMC query per cell; check_ip symbolic",
+        "assumptions": STEP_ASSUME,
+    },
+    "C05": {
+        "jobs": c05_jobs, "level": "model_checking",
+        "level_text": "CBMC memory-safety/UB instrumentation (bounds, pointers, signed overflow, shifts, division) plus unwinding "
+                      "assertions on every command cell of the real dispatcher from an arbitrary valid state, and the representation "
+                      "invariant re-asserted afterwards (so the next datagram starts from a covered state); other slots' records are "
+                      "compared field by field in the C03/C04 cells. The DNS decoder feeding the dispatcher is covered by the C12/C06 decoder cells.",
+        "level_note": "names <= 20 chars in the dispatcher cells (255 in the decoder cells), scaled buffers, see assumptions.",
+        "explanation": "one CBMC query per cell with all standard checks on",
+        "assumptions": STEP_ASSUME,
+    },
+    "C14": {
+        "jobs": c14_jobs, "level": "model_checking",
+        "level_text": "One-step multiset lemma at the answer hook: every answer emitted in a step carries id, question and address of the "
+                      "incoming query or of a query held in the pre-state (or its remembered duplicate), each at most once; an answered "
+                      "query is no longer held; a held query is answered or kept, never overwritten; the emission routine answers the "
+                      "held query once plus its duplicate once.",
+        "level_note": "DNS ids of the pending queries assumed pairwise distinct; 2 slots; tun arrival path via the emission lemma only.",
+        "explanation": "one CBMC query per cell; answers observed at the write_dns hook",
+        "assumptions": STEP_ASSUME + ["ids of incoming + held queries + duplicates pairwise distinct"],
+    },
+    "C15": {
+        "jobs": c15_jobs, "level": "model_checking",
+        "level_text": "Assertions at the answer hook of the real send_chunk_or_dataless() from an arbitrary valid state: payload after the "
+                      "2-byte header <= fragsize and <= bytes remaining, last flag iff offset+len reaches the packet length, fragment and "
+                      "sequence numbers as stored, bytes taken from the packet at the offset; N installs exactly the requested size and "
+                      "refuses < 2; V installs 100; an ack advances the fragment number by exactly one.",
+        "level_note": "fragsize symbolic 2..65535 but buffers scaled to 80 bytes (so payloads <= 80); 4-bit wrap beyond 16 fragments outside the claim.",
+        "explanation": "one CBMC query per cell",
+        "assumptions": STEP_ASSUME,
+    },
+    "C08": {
+        "jobs": c08_jobs, "level": "model_checking",
+        "level_text": "The real build_hostname()/inline_dotify() as the client calls them and query_datalen()/unpack_data() as the "
+                      "server calls them, checked against an oracle written from the statement. Content cells: one SAT query decides "
+                      "every payload (length and bytes) for a concrete (L, domain length); filled-name cells: concrete runs at the "
+                      "dot-insertion edges and at L=255 (degenerate queries: symex folds them), because the symbolic version did not finish.",
+        "level_note": "content cells only for small encoder spaces (<= 32..58 chars); the large (L, domain) cells are concrete "
+                      "executions, i.e. weaker than a solver verdict; (L, domain) pairs are an enumerated edge list, not all pairs.",
+        "explanation": "per cell one CBMC run; see per-job bounds",
+        "assumptions": ["domain text is a fixed pattern of the given length (build_hostname only uses its length)",
+                        "header characters arbitrary non-dot non-NUL bytes", "warnx no-op"],
+    },
+    "C09": {
+        "jobs": c09_jobs, "level": "model_checking",
+        "level_text": "Partial: payload coding of downstream answers without the DNS record framing. Hostname answers: real server "
+                      "write_dns_nameenc() -> real client dns_namedec(); TXT answers: text composed as write_dns() composes it -> real "
+                      "dns_namedec(); for every payload within the bound the client extracts exactly the bytes the writer put in.",
+        "level_note": "payload <= 9/16 bytes; record framing (dns_encode/dns_decode), MX/SRV splitting and ordering, TXT 255-byte strings and "
+                      "the size-monotonicity claim are NOT covered (no verdict within memory for the full writer->reader path).",
+        "explanation": "one SAT query per (answer kind, downstream codec)",
+        "assumptions": ["write_dns()'s TXT branch (three glue lines) repeated in the harness", "record framing outside the claim"],
+    },
+    "C13": {
+        "jobs": c13_jobs, "level": "model_checking",
+        "level_text": "The real tun_setip()/tun_setmtu() (LINUX variant) run on arbitrary strings/numbers; the command string handed to "
+                      "system() is checked by an independent strict parser (fixed ifconfig invocation, strict dotted quads, mtu 201..1500).",
+        "level_note": "address texts <= 18/24 chars; snprintf/inet_ntoa modelled in the harness (CBMC build only; native replay uses glibc); "
+                      "interface name is local input (<= 5 chars [a-z0-9]).",
+        "explanation": "two CBMC queries; every byte of both address strings symbolic",
+        "assumptions": ["snprintf(%s,%u,%d)/inet_ntoa models", "interface name chosen locally", "LINUX variant of tun.c"],
+    },
     "C06": {
         "jobs": c06_jobs, "level": "model_checking",
         "level_text": "CBMC's memory-safety/UB instrumentation (bounds, pointer validity, pointer overflow, signed overflow, shifts) "
@@ -525,10 +754,10 @@ def dev_cut(tier):
     js = step_jobs(tier, ["AUTH"], "cut", only=os.environ.get("CUTCELL", "^P-u1$"))
     out = []
     cuts = {
-        "c1-after-cache": (r"(\t\t/\* Check if duplicate \(and not in full dnscache any more\) \*/\n\t\tif \(answer_from_qmem\(dns_fd, q, users\[userid\]\.qmemping_cmc)", r"__CPROVER_assume(0);\n\1"),
-        "c2-after-qmem": (r"(\t\tdn_seq = unpacked\[1\] >> 4;)", r"__CPROVER_assume(0);\n\1"),
-        "c3-after-ack": (r"(\t\tif \(debug >= 3\) \{\n\t\t\tfprintf\(stderr, \"PINGret)", r"__CPROVER_assume(0);\n\1"),
-        "c4-before-store": (r"(\t\t/\* Save new query and time info \*/\n\t\tmemcpy\(&\(users\[userid\]\.q\), q, sizeof\(struct query\)\);\n\t\tusers\[userid\]\.last_pkt = time\(NULL\);\n\n\t\t/\* If anything waiting and we)", r"__CPROVER_assume(0);\n\1"),
+        "d1-after-ack": (r"(\t\tif \(up_seq == users\[userid\]\.inpacket\.seqno &&\n)", r"__CPROVER_assume(0);\n\1"),
+        "d2-before-unpack": (r"(\t\tif \(upstream_ok\) \{\n\t\t\t/\* decode with this user's encoding \*/)", r"__CPROVER_assume(0);\n\1"),
+        "d3-before-full": (r"(\t\tif \(upstream_ok && lastfrag\) \{ /\* packet is complete \*/)", r"__CPROVER_assume(0);\n\1"),
+        "d4-after-full": (r"(\t\t/\* If there is a query that must be returned real soon, do it.\n\t\t   Includes an ack)", r"__CPROVER_assume(0);\n\1"),
     }
     for cn, sub in cuts.items():
         for j in js:
